@@ -17,7 +17,7 @@ RULE = ("Three campaigns. (E2, inputs) libFuzzer decodes bytes into (operand typ
         "grid type x operation x position x passing style x (old, a, b) in the 14-value boundary pool is enumerated exhaustively. (E3a, schedules on real hardware) Hypothesis generates "
         "2-8 pinned threads, an iteration count and a packing of 1-6 operands of mixed widths into one 8-byte word, each hammered by all threads with one discipline: sum conservation "
         "over add/sub/inc/dec/add_return/sub_return, all add_return(+1) results distinct and consecutive, xchg token conservation, cmpxchg-loop increments, and/or bit ownership, a test-and-set lock built from cmpxchg protecting a plain counter; "
-        "guard words and unowned bytes must not change; four builds. (E3b) store-buffer litmus x=1; RMW(z); r=y || y=1; RMW(z'); r'=x for xchg, successful cmpxchg, add_return, "
+        "guard words and unowned bytes must not change; four builds; plus a fixed matrix: every update operation (add, sub, inc, dec, add_return, sub_return, xchg, cmpxchg loop, or/and, cmpxchg lock) x every operand width x every build hammered alone by 4 threads (20000 iterations quick, 200000 thorough). (E3b) store-buffer litmus x=1; RMW(z); r=y || y=1; RMW(z'); r'=x for xchg, successful cmpxchg, add_return, "
         "sub_return (on long and on int operands, including add_return/sub_return of 0, a successful cmpxchg that stores the same value and an xchg of the value already present): r=r'=0 must never occur, while the control without the RMW must show it (else the litmus is reported inconclusive). Non-trivial: E2 - the operation wrapped, "
         "touched the sign bit or got an operand wider than the type (distinct decoded case); E3a - at least two operands shared the word, thread execution intervals overlapped and "
         "interference was observed (failed CAS, interleaved add_return results or foreign tokens) (distinct case text).")
@@ -128,6 +128,36 @@ def e3_hammer(tier, seed, bins):
     return stats
 
 
+MATRIX_MODES = [(6, "add"), (7, "sub"), (8, "inc"), (9, "dec"), (10, "add_return (sum)"), (11, "sub_return (sum)"), (1, "add_return (distinct results)"),
+                (2, "xchg"), (3, "cmpxchg loop"), (4, "or / and"), (5, "cmpxchg test-and-set lock")]
+
+
+def e3_matrix(tier, seed, bins):
+    """Every operation x every operand width x every build hammered alone by 4 threads (the generated cases above mix several operands and modes per
+    word and therefore visit one particular operation/width pair only a few times)."""
+    iters = {"quick": 20000, "thorough": 200000}[tier]
+    stats = {"evaluations": 0, "violations": [], "cells": 0, "cells_with_contention": 0, "inconclusive": 0}
+    for name, b in bins.items():
+        for w, t in ((1, 0), (2, 2), (4, 4), (8, 6)):
+            for mode, mname in MATRIX_MODES:
+                it = min(iters, 60) if (mode == 1 and w == 1) else iters
+                case = "run 4 %d %d %d:0:%d" % (it, seed * 31 + w + mode, t + (mode & 1), mode)
+                rc, out = run_native(b, case)
+                stats["evaluations"] += 1; stats["cells"] += 1
+                m = re.search(r"overlapping_pairs=(\d+)", out)
+                if m and int(m.group(1)):
+                    stats["cells_with_contention"] += 1
+                if rc == 1:
+                    rep = 1 + sum(1 for _ in range(4) if run_native(b, case)[0] == 1)
+                    stats["evaluations"] += 4
+                    if rep >= 2:
+                        msg = " | ".join(l for l in out.splitlines() if l.startswith("VIOLATION"))[:600]
+                        stats["violations"].append({"case": case, "msg": "[%s] uatomic %s, %d-byte operand, 4 threads: %s" % (name, mname, w, msg), "reproduced": rep})
+                elif rc != 0:
+                    stats["inconclusive"] += 1
+    return stats
+
+
 def litmus(tier, bins):
     rounds = {"quick": 150000, "thorough": 3000000}[tier]
     res, viol, incon = [], [], 0
@@ -136,7 +166,8 @@ def litmus(tier, bins):
         m = re.search(r"both_zero=(\d+)", out)
         control = int(m.group(1)) if m else -1
         row = {"build": name, "rounds": rounds, "control_both_zero": control}
-        for kind in ("xchg", "cmpxchg", "add_return", "sub_return", "xchg32", "cmpxchg32", "add_return32", "sub_return32", "add_return_zero", "sub_return_zero", "add_return32_zero", "cmpxchg_same", "xchg_same"):
+        for kind in ("xchg", "cmpxchg", "add_return", "sub_return", "xchg32", "cmpxchg32", "add_return32", "sub_return32", "add_return_zero", "sub_return_zero", "add_return32_zero", "cmpxchg_same", "xchg_same",
+                     "or_mb_after", "and_mb_after", "add_mb_after", "inc_mb_after", "dec_mb_after", "mb_before_or", "xchg_mo_seqcst", "cmpxchg_mo_seqcst", "add_return_mo_seqcst"):
             rc, out = run_native(b, "litmus %s %d" % (kind, rounds), 300)
             m = re.search(r"both_zero=(\d+)", out)
             n = int(m.group(1)) if m else -1
@@ -166,26 +197,77 @@ def run_c20(tier, seed):
         path = fuzzdrv.save_replay("C20", f)
         viol_lines.append((path, f["msg"]))
     e3 = e3_hammer(tier, seed, bins)
+    mx = e3_matrix(tier, seed, bins)
     lit, litviol, litincon = litmus(tier, bins)
     rdir = os.environ.get("VERIF_REPLAY_DIR", os.path.join(VERIF, "replays")); os.makedirs(rdir, exist_ok=True)
-    for v in e3["violations"] + litviol:
+    for v in e3["violations"] + mx["violations"][:2] + litviol:
         path = os.path.join(rdir, "C20-%s.case" % hashlib.blake2b(v["case"].encode(), digest_size=8).hexdigest())
         open(path, "w").write(v["case"] + "\n# verdict: " + v["msg"] + "\n")
         viol_lines.append((path, v["msg"]))
     for path, msg in viol_lines[:4]:
         print("VIOLATION property=C20 replay=%s" % path); print("  " + msg[:600])
     ev = {"property_id": "C20", "tier": tier, "seed": int(seed), "level": "exploration",
-          "coverage": {"evaluations": res["evaluations"] + grid + e3["evaluations"] + sum(14 for _ in lit),
+          "coverage": {"evaluations": res["evaluations"] + grid + e3["evaluations"] + mx["evaluations"] + sum(23 for _ in lit),
                        "distinct_nontrivial": len(res["nontrivial"]) + len(e3["nontrivial"]), "rule": RULE,
                        "samples": res["samples"][:2] + e3["samples"][:2],
                        "e2_fuzz": {"evaluations": res["evaluations"], "distinct_nontrivial": len(res["nontrivial"]), "classes": res["classes"], "builds_compared": 8,
                                    "boundary_grid_cases_enumerated_exhaustively": grid, "fuzzer_processes": fuzzdrv.NPROC, "runs_per_process": runs},
                        "e3_hammer": {"evaluations": e3["evaluations"], "distinct_nontrivial": len(e3["nontrivial"]), "classes": e3["classes"], "inconclusive": e3["inconclusive"], "builds": sorted(bins)},
+                       "e3_matrix": {k: mx[k] for k in ("evaluations", "cells", "cells_with_contention", "inconclusive")},
                        "e3_litmus": lit, "litmus_inconclusive_builds": litincon,
                        "engine": os.path.basename(os.path.dirname(res["binary"])) + " + " + os.path.basename(os.path.dirname(list(bins.values())[0]))},
           "assumptions": ASSUMPTIONS, "wall_s": round(time.time() - t0, 1), "violations": len(viol_lines)}
     fuzzdrv.cleanup(res)
     return (1 if viol_lines else 0), ev
+
+
+ORDERING_KINDS = [("store_seqcst", "uatomic_store(p, v, CMM_SEQ_CST); load - the reader exit of urcu-mb and the quiescent-state/offline announcements of urcu-qsbr"),
+                  ("store_relaxed_mb", "uatomic_store(p, v, CMM_RELAXED); cmm_smp_mb(); load"),
+                  ("set_mb", "uatomic_set(p, v); cmm_smp_mb(); uatomic_read"),
+                  ("store_seqcst_fence", "uatomic_store(p, v, CMM_SEQ_CST_FENCE); load")]
+
+
+def primitive_litmus(pid, tier):
+    """C01/C02 add-on: E1 explores the protocols with the compiler-builtin atomics (every access visible to the engine). The default build implements the
+    same primitives in include/urcu/uatomic/{generic,x86}.h and include/urcu/arch/*.h; the store-buffering litmus (store-with-ordering; load || the same,
+    mirrored) checks on this machine that they still order a store before a later load there, which is what 'announce, then test the futex word / scan the
+    readers' needs. Returns (violations, rows, evaluations)."""
+    import nbuild
+    bins = nbuild.build()
+    rounds = {"quick": 150000, "thorough": 3000000}[tier]
+    rows, viol, n = [], [], 0
+    for name, b in bins.items():
+        rc, out = run_native(b, "litmus none %d" % rounds, 300); n += 1
+        m = re.search(r"both_zero=(\d+)", out)
+        row = {"build": name, "rounds": rounds, "control_both_zero": int(m.group(1)) if m else -1}
+        for kind, what in ORDERING_KINDS:
+            rc, out = run_native(b, "litmus %s %d" % (kind, rounds), 300); n += 1
+            m = re.search(r"both_zero=(\d+)", out)
+            k = int(m.group(1)) if m else -1
+            row[kind] = k
+            if k > 0:
+                # confirm: 2 of 3 more runs
+                rep = 1 + sum(1 for _ in range(3) if re.search(r"both_zero=[1-9]", run_native(b, "litmus %s %d" % (kind, rounds), 300)[1]))
+                n += 3
+                if rep >= 2:
+                    viol.append({"case": "litmus %s %d" % (kind, rounds), "msg": "[%s build, real hardware] %s: both threads read 0 in %d of %d rounds (control without ordering: %d) - the store is not ordered before the later load, so 'announce, then test' can miss (lost wake-up / reader not seen)" % (name, what, k, rounds, row["control_both_zero"])})
+        rows.append(row)
+    return viol, rows, n
+
+
+def replay_primitive(pid, path):
+    import nbuild
+    case = [l for l in open(path).read().splitlines() if l and not l.startswith("#")][0]
+    bad = 0
+    for name, b in nbuild.build().items():
+        for _ in range(3):
+            rc, out = run_native(b, case, 600)
+            print("[%s] %s" % (name, out.strip()[-200:]))
+            if re.search(r"both_zero=[1-9]", out):
+                bad = 1
+    if bad:
+        print("VIOLATION property=%s replay=%s" % (pid, path)); return 1
+    print("replay: property held on this case"); return 0
 
 
 def replay_c20(path):
